@@ -46,7 +46,8 @@ static const struct {
 #define NMIXED ((int) (sizeof MIXED / sizeof MIXED[0]))
 static uint8_t SUITE_OF[64]; /* per job of the current schedule: 0 = first suite, 1 = second suite */
 static int use_burst;
-static unit_t UNITS[300];
+static unit_t UNITS[8000];
+static const char *g_label = "C04"; /* records of the C04 oracle are reported under this property (C06 run: "C06") */
 static int NUNITS;
 
 static IMB_MGR *m;
@@ -174,6 +175,8 @@ static void
 viol(const char *prop, const sched_t *sc, const char *site, const char *detail, int job, long x)
 {
         char sig[220], sb[160];
+        if (!strcmp(prop, "C04"))
+                prop = g_label;
         snprintf(sig, sizeof sig, "%s|%s|%s|%s", prop, site, U->name, VARIANTS[g_v].name);
         if (!rec_sig_ok(sig, 4))
                 return;
@@ -537,7 +540,9 @@ crashed(long item, int sig, void *arg)
 int
 main(int argc, char **argv)
 {
-        rec_init("C04", getenv("VERIF_TIER") ? getenv("VERIF_TIER") : "quick");
+        if (argc > 2)
+                g_label = argv[2];
+        rec_init(g_label, getenv("VERIF_TIER") ? getenv("VERIF_TIER") : "quick");
         thorough = tier_thorough();
         const char *filter = argc > 1 ? argv[1] : "";
         region_t R = region_new(1);
@@ -581,6 +586,37 @@ main(int argc, char **argv)
                          MIXED[c].s2.cipher, MIXED[c].s2.hash, u->dir2 ? "enc" : "dec");
                 if (strstr(u->name, filter))
                         NUNITS++;
+        }
+        /* generated product (C06 runs and the thorough tier): for every hash row with an out-of-order manager, every ordered pair
+         * of cipher rows - first suite cipher->hash (encrypt), second suite hash->cipher (decrypt) - in one schedule: the
+         * second stage of a job leaving the shared manager must be dispatched with that job's own handlers */
+        if (!strcmp(g_label, "C06") || thorough) {
+                static const char *CQ[] = { "aes-cbc-128", "aes-ctr-128", "aes-ecb-128", "aes-cfb-128" };
+                static const char *CT[] = { "aes-cbc-128", "aes-ctr-128", "aes-ecb-128", "aes-cfb-128", "aes-cbc-256", "des-cbc", "3des-cbc",
+                                            "docsis-aes-128", "zuc-eea3-128", "snow3g-uea2", "chacha20", "sm4-cbc" };
+                const char **CL = thorough ? CT : CQ;
+                int ncl = thorough ? 12 : 4;
+                for (int h = 1; h < NALGS; h++) {
+                        if (ALGS[h].kind != AK_HASH || ALGS[h].lane == LM_NONE)
+                                continue;
+                        for (int c1 = 0; c1 < ncl; c1++)
+                                for (int c2 = 0; c2 < ncl; c2++) {
+                                        if (NUNITS >= 7990)
+                                                break;
+                                        unit_t *u = &UNITS[NUNITS];
+                                        memset(u, 0, sizeof *u);
+                                        u->a = alg_id(CL[c1]);
+                                        u->h = h;
+                                        u->dir = 1;
+                                        u->a2 = alg_id(CL[c2]);
+                                        u->h2 = h;
+                                        u->dir2 = 0;
+                                        u->mixed = 1;
+                                        snprintf(u->name, sizeof u->name, "mixed:%s+%s/enc|%s+%s/dec", CL[c1], ALGS[h].name, CL[c2], ALGS[h].name);
+                                        if (strstr(u->name, filter))
+                                                NUNITS++;
+                                }
+                }
         }
         par_run((long) NUNITS * NVARIANTS, n_workers(), run_unit_variant, crashed, NULL, 900);
         rec_begin("meta");
